@@ -341,6 +341,34 @@ def check(case):
                     continue
                 if not close(g6[i], val, rtol=1e-10, atol=atol):
                     out.fail('flux-reuse-widths@%s' % lab, 'same centres, %s: bin %d got %r want %r' % (lab, i, g6[i], val))
+        # ... and on a native grid with the same number of points and the same end points but other interior
+        # spacing, widths implied both times (the way bin_model calls it)
+        if n >= 4:
+            t_ = (wn - wn[0]) / (wn[-1] - wn[0])
+            wn3 = wn[0] + (wn[-1] - wn[0]) * (0.4 * t_ + 0.6 * t_ ** 2)
+            wn3[0], wn3[-1] = wn[0], wn[-1]
+            ok_grids = True
+            for g_ in (wn, wn3):
+                wg_ = midpoint_widths(g_)[1]
+                # implied (mid-point) widths of a smoothly varying grid give centre +- w/2 bins whose lower and upper
+                # edges both increase (only the mirrored end bins overlap their neighbour a little): that is how every
+                # log-spaced native grid is binned; wilder grids are outside the domain
+                if np.any(np.diff(g_) <= 0) or np.any(np.diff(g_ - wg_ / 2) <= 0) or np.any(np.diff(g_ + wg_ / 2) <= 0):
+                    ok_grids = False
+            if ok_grids:
+                out.applies('flux-reuse-endpoints')
+                cut(out, 'flux-bindown', fb.bindown, wn[pn].copy(), f1[pn].copy())
+                r7 = cut(out, 'flux-bindown', fb.bindown, wn3[pn].copy(), f1[pn].copy())
+                g7 = np.asarray(r7[1], dtype=float)
+                w3 = midpoint_widths(wn3)[1]
+                for i in range(nt):
+                    lo, hi = stc[i] - stw[i] / 2, stc[i] + stw[i] / 2
+                    val, _, tot, idx, _ = overlap_mean(wn3 - w3 / 2, wn3 + w3 / 2, f1, lo, hi)
+                    if tot <= 1e-9 * (hi - lo):
+                        continue
+                    if not close(g7[i], val, rtol=1e-10, atol=atol):
+                        out.fail('flux-reuse-endpoints', 'same end points and count, other spacing: bin %d got %r want %r' % (i, g7[i], val))
+                        break
     except CutError:
         pass
 
